@@ -31,6 +31,7 @@ const (
 	cstWhile    = "While"
 
 	cstContinuable = "Continuable"
+	cstBreakable   = "Breakable"
 )
 
 const (
